@@ -212,6 +212,20 @@ def checkStructure (ext : Bytes) : Bool :=
     && (ext.getD 31 0 &&& 0b0100_0000) == 0b0100_0000
     && (ext.getD 31 0 &&& 0b1000_0000) == 0
 
+/-- a 64-byte extended key with the given bytes 0 and 31 and `filler` (62 bytes) everywhere else -/
+def mkExt (b0 b31 : UInt8) (filler : Bytes) : Bytes :=
+  b0 :: (filler.take 30 ++ [b31] ++ filler.drop 30)
+
+def packBits (bs : List Bool) : Bytes :=
+  (List.range ((bs.length + 7) / 8)).map fun j =>
+    (List.range 8).foldl (fun acc i => if bs.getD (8 * j + i) false then acc ||| ((1 : UInt8) <<< UInt8.ofNat i) else acc) 0
+
+/-- the complete accept/reject table of `check_structure` over all 256×256 values of (byte 0, byte 31):
+    row `b0` = 256 bits indexed by `b31`, packed little-endian into 32 bytes -/
+def checkTable (filler : Bytes) : Bytes :=
+  (List.range 256).flatMap fun b0 =>
+    packBits ((List.range 256).map fun b31 => checkStructure (mkExt (UInt8.ofNat b0) (UInt8.ofNat b31) filler))
+
 /-- `SecretKeyExtended::from_bytes` -/
 def extFromBytes (ext : Bytes) : Option Bytes := if checkStructure ext then some ext else none
 
